@@ -11,8 +11,8 @@ import common_rq
 TYPES_RS = "prqlc/prqlc/src/semantic/resolver/types.rs"
 PR_TYPES = "prqlc/prqlc-parser/src/parser/pr/types.rs"
 
-LABELS = ["TI1"]
-FUNCTIONS = ["type_intersection", "maybe_type_intersection"]
+LABELS = ["TI1", "IR1", "ST1", "ST2", "VT1"]
+FUNCTIONS = ["type_intersection", "maybe_type_intersection", "is_relation", "is_super_type_of", "is_super_type_of_opt", "validate_type"]
 RLIMIT = 60
 
 ASSUMED = [
@@ -20,10 +20,17 @@ ASSUMED = [
     {"what": "derived PartialEq on TyKind is the uninterpreted tykind_eq(); Ty::new(kind) builds a type of that kind; type_intersection_of_tuples is external; "
              "todo!() is a panic (shim: a function whose precondition is false)",
      "keys": ["fn tykind_eq_fn", "spec fn tykind_eq", "fn ty_new", "fn type_intersection_of_tuples", "fn todo_panics"]},
+    {"what": "is_super_type_of_kind (the structural comparison of two type kinds) is external: super_kind(a, b) is uninterpreted; enum_as_inner's is_array() / is_function() test the variant; "
+             "compose_type_error is opaque; Resolver is an empty shim (validate_type does not touch it)",
+     "keys": ["fn is_super_type_of_kind", "spec fn super_kind", "fn is_array", "fn is_function", "fn compose_type_error", "struct Resolver"]},
 ]
 TRUSTED = [
     "oracle (C12): resolving `append` / a case expression / a function call computes the intersection of the operand types; for every pair of types the function "
     "returns (a value or, through its callers, an error) - it never panics",
+    "oracle (C10): an expression is accepted where a type is expected only if the expected type is a super type of the found one: two relations (their columns are not compared), or "
+    "kinds that compare structurally - and, for a DIRECT argument only, an expected array with anything but a function (the documented hack for window functions).  Inside the "
+    "comparison of two function types (`transform = func relation -> relation` against the pipeline given to group / window / loop) there is no such exception: a function "
+    "that returns a scalar is not a transform",
 ]
 
 PRELUDE = r"""
@@ -41,6 +48,16 @@ pub uninterp spec fn tykind_eq(a: TyKind, b: TyKind) -> bool;
 #[verifier::external_body] pub fn type_intersection_of_tuples(a: Vec<TyTupleField>, b: Vec<TyTupleField>) -> Ty { unimplemented!() }
 // `todo!()` / `unimplemented!()` / `panic!()` reached = the program panics: nothing satisfies the precondition
 #[verifier::external_body] pub fn todo_panics() -> Ty requires false, { unimplemented!() }
+pub uninterp spec fn super_kind(a: TyKind, b: TyKind) -> bool;
+#[verifier::external_body] pub fn is_super_type_of_kind(a: &TyKind, b: &TyKind) -> (r: bool) ensures r == super_kind(*a, *b), { unimplemented!() }
+impl TyKind {
+    #[verifier::external_body] pub fn is_array(&self) -> (r: bool) ensures r == (*self is Array), { unimplemented!() }
+    #[verifier::external_body] pub fn is_function(&self) -> (r: bool) ensures r == (*self is Function), { unimplemented!() }
+}
+#[verifier::external_body] pub fn compose_type_error<F>(found: &Ty, expected: &Ty, who: &F) -> Error { unimplemented!() }
+pub struct Resolver { pub rest: OpaqueT }
+pub open spec fn rel(t: Ty) -> bool { t.kind is Array && t.kind->Array_0 is Some && t.kind->Array_0->0.kind is Tuple }
+pub open spec fn is_super(sup: Ty, sub: Ty) -> bool { (rel(sup) && rel(sub)) || super_kind(sup.kind, sub.kind) }
 """
 
 
@@ -57,8 +74,34 @@ def build(X):
         ensures true, // @TI1
         decreases a,
     """)
+    ir = X.fn(PR_TYPES, "is_relation", after="impl Ty").pub_all()
+    ir.ret_name("r")
+    ir.contract("""
+        ensures r == rel(*self), // @IR1
+    """)
+    st = X.fn(TYPES_RS, "is_super_type_of").pub_all()
+    st.ret_name("r")
+    st.contract("""
+        ensures
+            // C10: two relations, or kinds that compare structurally - nothing else
+            r == is_super(*superset, *subset), // @ST1
+    """)
+    so = X.fn(TYPES_RS, "is_super_type_of_opt").pub_all()
+    so.ret_name("r")
+    so.contract("""
+        ensures r == (subset is None || superset is None || super_kind(superset->0.kind, subset->0.kind)), // @ST2
+    """)
+    vt = X.fn(TYPES_RS, "validate_type").pub_all()
+    vt.rewrite_re("R6", r"\) -> Result<\(\), Error>\s*where\s*F: Fn\(\) -> Option<String>,\s*\{", ") -> Result<(), Error>\n    {", count=1, why="the bound of the message closure is dropped (the closure is only handed on)")
+    vt.ret_name("r")
+    vt.contract("""
+        ensures
+            // C10: accepted only if nothing is expected, the expected type is a super type, or (direct arguments only) an array is expected and the argument is not a function
+            r is Ok <==> (expected is None || is_super(*expected->0, *old(found)) || (expected->0.kind is Array && !(old(found).kind is Function))), // @VT1
+            *final(found) == *old(found),
+    """)
     mt = X.fn(TYPES_RS, "maybe_type_intersection").pub_all()
-    return PRELUDE + ty.text + "\n" + tk.text + "\n" + tf.text + "\n" + SHIMS + ti.text + "\n" + mt.text + "\n} // verus!\nfn main() {}\n"
+    return PRELUDE + ty.text + "\n" + tk.text + "\n" + tf.text + "\n" + SHIMS + ti.text + "\n" + mt.text + "\nimpl Ty {\n" + ir.text + "\n}\n" + st.text + "\n" + so.text + "\nimpl Resolver {\n" + vt.text + "\n}\n} // verus!\nfn main() {}\n"
 
 
 # ----------------------------------------------------------------------------- replay on the real compiler
